@@ -250,11 +250,13 @@ def gen_scenario(ctx, k):
     # trains: every speed (sub-sampled per train), calibrated speeds, emergency stop, every function bit x {0,1,2,255}
     for t in cfg['trains']:
         speeds = list(range(-130, 131)) if (ctx.tier == 'thorough' or t is cfg['trains'][0]) else rng.sample(range(-130, 131), 40) + [0, 0, 126, -126, 127, -127]
+        # far out of range: values whose low byte / low 16 bits look like a legal speed
+        speeds += [255, -255, 256, -256, 257, 300, -300, 382, 383, 511, 512, 638, 1000, -1000, 4106, 65535, 65536, 65556, -65580, 1 << 20, (1 << 31) - 1, -(1 << 31) + 1]
         rng.shuffle(speeds)
         for sp in speeds:
             to = rng.choice(to_ids + allb[:1] + [UNK]) if rng.random() < 0.15 else rng.choice(to_ids)
             work.append(('bidib_set_train_speed', [S_(t['id']), sp, S_(to)], lambda t=t, sp=sp, to=to: enc.speed(t['id'], sp, to)))
-        for kk in range(-10, 11):
+        for kk in list(range(-10, 11)) + [255, 256, 257, -256, 65537, 1 << 20]:
             to = rng.choice(to_ids)
             work.append(('bidib_set_calibrated_train_speed', [S_(t['id']), kk, S_(to)], lambda t=t, kk=kk, to=to: enc.calibrated(t['id'], kk, to)))
         work.append(('bidib_emergency_stop_train', [S_(t['id']), S_(rng.choice(to_ids))], None))
